@@ -1003,7 +1003,7 @@ def _all_divisions(t):
 def _lemmas(ctx):
     """The facts about the mathematical function split_nl that the proofs assume (pyvc.texts.lines_of_text) or
     that justify the interface abstraction, checked for every text up to length 7 over {a, b, \\n, \\r, \\f}."""
-    exists_ok = unique_ok = empty_ok = count_ok = prefix_ok = True
+    exists_ok = unique_ok = empty_ok = count_ok = prefix_ok = rstrip_ok = True
     n_texts = n_div = 0
     bad = None
     for t in _all_texts('ab\n\r\x0c', 7 if ctx.tier == 'thorough' else 6):
@@ -1013,6 +1013,8 @@ def _lemmas(ctx):
             exists_ok, bad = False, t
         if (len(canon) == 0) != (t == ''):
             empty_ok, bad = False, t
+        if any(x.rstrip(NL) != text_spec.line_body(x) for x in canon):
+            rstrip_ok, bad = False, t
         if text_spec.nlines_by_count(t) != len(canon):
             count_ok, bad = False, t
         for i in range(len(canon) + 1):
@@ -1028,6 +1030,7 @@ def _lemmas(ctx):
     ctx.obligation('lemma: is_split_nl(xs, t) implies xs == split_nl(t) (uniqueness: what a class proves of its '
                    'lines is what I_SSC gives its consumers)', unique_ok, 'enumeration', d)
     ctx.obligation('lemma: no lines iff the text is empty', empty_ok, 'enumeration', d)
+    ctx.obligation("lemma: of a line, rstrip('\\n') is the line without its final new-line", rstrip_ok, 'enumeration', d)
     ctx.obligation('lemma: number of lines == count of \\n (+1 if the text does not end in \\n)', count_ok, 'enumeration', d)
     ctx.obligation('lemma: joined prefixes of the lines are prefixes of the text, i lines have >= i characters',
                    prefix_ok, 'enumeration', d)
